@@ -49,6 +49,16 @@ CHECKS = {
         note='Trusted: Lean kernel; extract_tables.py; the correspondence harness (120 layouts per quick run incl. all ordered pairs of headers). '
              'Lark\'s ambiguous block splitting is covered by the split-invariance theorem. A genuine defect (F6) was repaired by fix: commit 97606d9.',
         design='DESIGN.md §6 C11'),
+    'C13': dict(
+        technique='Lean 4 proof about the signature table and symbol export + correspondence with the real SignatureManager/get_symbols; both-mode atom-vs-table search',
+        text='Lean theorems for every signature and every declaration sequence: an atom carries exactly as many arguments as get_symbols reports '
+             '(flat arity) for every signature shape; the table is append-only in names, the first declaration of a name wins, concepts that do '
+             'not mention a later concept keep their shape. Universality over inputs comes from the search: every atom occurrence of every '
+             'compiled corpus / wide-generator program is checked against the reported arity in both printing modes.',
+        note='Trusted: Lean kernel; correspondence harness (500 declaration sequences through the real add_signature and symbol conversion per quick '
+             'run); clingo.ast for atom extraction. A genuine defect was repaired by fix: commit (get_symbols guard). Partial: the equality of emitted '
+             'arity and table arity for ALL inputs rests on the sampled search, the theorem covers the table and conversion functions.',
+        design='DESIGN.md §6 C13'),
 }
 
 NOT_YET = {}
